@@ -513,8 +513,14 @@ def _check_positional_insert(g):
     problems = []
     bp = g.params()[0]["d"]
 
+    def thru(e):
+        """a value computed by a folded helper or closure with one result is that result"""
+        from .ir import value_leaves
+        ls = value_leaves(g, e)
+        return std_unwrap(ls[0]) if len(ls) == 1 else std_unwrap(e)
+
     def origin_of(e, st):
-        e = std_unwrap(e)
+        e = thru(e)
         if e.is_call() and e.callee:
             if e.callee["n"] == "get_root":
                 return ("root", None)
@@ -548,9 +554,15 @@ def _check_positional_insert(g):
         m[d] = (org, nul, rk, rof)
         return (st[0], tuple(sorted(m.items(), key=lambda kv: kv[0])))
 
+    def rk_of(e, st):
+        """copying a cursor copies what is known about the right child of the node it points to"""
+        d = _local_did(thru(e))
+        cur = dict(st[1]).get(d) if d is not None else None
+        return cur[2] if cur is not None else None
+
     def right_of(e):
         """the local x if e is get_right(x)"""
-        e = std_unwrap(e)
+        e = thru(e)
         if e.is_call() and e.callee and e.callee["n"] == "get_right" and e.args:
             return _local_did(e.args[0])
         return None
@@ -560,17 +572,17 @@ def _check_positional_insert(g):
             for d in n.get("decls", []):
                 if "init" in d and (g.node(d["init"]).get("t") or "").rstrip().endswith("*"):
                     org, nul = origin_of(g.node(d["init"]), st)
-                    st = set_var(st, d["d"], org, nul, None, right_of(g.node(d["init"])), assigned=True)
+                    st = set_var(st, d["d"], org, nul, rk_of(g.node(d["init"]), st), right_of(g.node(d["init"])), assigned=True)
             return [st]
         if n.kind == "ParamBind" and (n.d.get("t") or "").rstrip().endswith("*") and n.d.get("init") is not None:
             # by-value pointer parameter of a virtually inlined helper (a cursor the helper advances)
             org, nul = origin_of(g.node(n.d["init"]), st)
-            return [set_var(st, n.d["d"], org, nul, None, right_of(g.node(n.d["init"])), assigned=True)]
+            return [set_var(st, n.d["d"], org, nul, rk_of(g.node(n.d["init"]), st), right_of(g.node(n.d["init"])), assigned=True)]
         if n.kind == "BinaryOperator" and n.op == "=":
             d = _local_did(n.children[0])
             if d is not None and (n.children[0].get("t") or "").rstrip().endswith("*"):
                 org, nul = origin_of(n.children[1], st)
-                return [set_var(st, d, org, nul, None, right_of(n.children[1]), assigned=True)]
+                return [set_var(st, d, org, nul, rk_of(n.children[1], st), right_of(n.children[1]), assigned=True)]
             return [st]
         if n.is_call() and n.callee and n.kind == "CXXMemberCallExpr" and n.callee["n"] in ("insert_root", "insert_left", "insert_right"):
             nm = n.callee["n"]
@@ -904,6 +916,9 @@ def check_C06(ctx, unit):
                     return "reset." + hw[0]
                 if x.kind == "DeclRefExpr" and x.d["d"] == pnode and hw[0] in FIELDS:
                     return "set." + hw[0]
+                if x.kind == "DeclRefExpr" and x.d["d"] == pnode and hw[0] not in FIELDS:
+                    # any other hook field of the removed node (the colour): what is stored into it
+                    return "other.%s=%s" % (hw[0], _ids(canon(std_unwrap(v))))
             return None
         return lab
     g = remove_all
@@ -916,6 +931,14 @@ def check_C06(ctx, unit):
             bad.append("a path leaves %s of the removed node set" % miss)
     ctx.inst("H.rb-reset", "%s::remove (with its helpers folded in)" % RB, not bad and len(ex) >= 3, g.loc,
              "; ".join(sorted(set(bad))) if bad else "all %d paths null the five link fields of the removed node" % len(ex), g)
+    # sibling agreement: whichever way the node is unlinked (as a leaf / half leaf, or replaced by its predecessor), its
+    # hook is left in ONE state -- a field that one unlink path resets and the other leaves alone makes what a later
+    # insert (or an "is linked" test) finds depend on the shape the tree happened to have
+    finals = {frozenset(l for l in s_ if isinstance(l, str) and l.startswith("other.")) for s_ in ex}
+    ctx.inst("H.rb-reset", "%s::remove: unlink paths agree on the other hook fields" % RB, len(finals) <= 1, g.loc,
+             "the removal paths leave the removed node's hook in different states: %s" % " / ".join(
+                 sorted("{%s}" % ", ".join(sorted(x_)) for x_ in finals)) if len(finals) > 1 else
+             "every path leaves the same non-link fields behind (%s)" % (", ".join(sorted(next(iter(finals)))) if finals and next(iter(finals)) else "none written"), g)
     for name in ("remove_half_leaf", "replace_node"):
         if name not in fns:
             continue
@@ -1022,7 +1045,9 @@ def check_C06(ctx, unit):
             bad = []
             down = 0
             for d, vals in assigned.items():
-                for v in vals:
+                # a step computed by a folded helper or closure is judged by the values it returns
+                from .ir import value_leaves
+                for v in [l for v0 in vals for l in value_leaves(g, v0)]:
                     x = v.strip()
                     while x.kind in ("ImplicitCastExpr", "CXXStaticCastExpr") and x.children:
                         x = x.children[0].strip()
@@ -1039,9 +1064,9 @@ def check_C06(ctx, unit):
 
 
 def check_stale_after_rebalance(ctx, rule, fns):
-    """After a call that may rebalance the tree to an unbounded extent (a function from which a rotation is reached through
-    at least one other function: fix_insert / fix_remove and whatever calls them), a local that was read from a child or
-    parent link before the call no longer says anything about the tree: it must not be used again."""
+    """After a call that may rebalance the tree (any function, other than a rotation itself, from which a rotation is
+    reached: fix_insert / fix_remove and whatever calls them), a local that was read from a child or parent link before
+    the call no longer says anything about the tree: it must not be used again."""
     from . import rules_atomic as RA
     allf = [g for gs in fns.values() for g in gs]
     byd = {g.d["did"]: g for g in allf}
@@ -1057,18 +1082,12 @@ def check_stale_after_rebalance(ctx, rule, fns):
             if d not in reach and cs & reach:
                 reach.add(d)
                 changed = True
-    # unbounded: reaches a rotation through a recursive function (fix_insert / fix_remove call themselves)
-    recursive = {d for d in reach if d in callees[d]}
-    unb = set(recursive)
-    changed = True
-    while changed:
-        changed = False
-        for d, cs in callees.items():
-            if d not in unb and cs & unb:
-                unb.add(d)
-                changed = True
-    if not recursive:
-        raise AnalysisBroken("anchor vanished: no recursive rebalancing function in %s" % RB)
+    # everything that reaches a rotation, the rotations themselves excepted: after a single rotation the function that asked for
+    # it knows what moved; after a call of anything that rebalances (fix_insert / fix_remove, recursive or as a loop, and whatever
+    # calls them) nothing about the neighbourhood is known
+    unb = reach - rot
+    if not unb:
+        raise AnalysisBroken("anchor vanished: no rebalancing function in %s" % RB)
     n_calls = 0
     for g in allf:
         ms = [n for n in g.events() if n.is_call() and n.callee and n.callee.get("did") in unb]
